@@ -11,7 +11,7 @@ then filters by the observations.  Answer `ok <k>` = k candidate states remain; 
 did something no interleaving of the model can do.
 
 lines:  new <nthreads> | call <t> <end> r <cap> | call <t> <end> w <hex> | call <t> <end> wt <ff:0|1> <cap,cap,…|->
-        call <t> <end> cr|cw|c | call <t> <end> srd|swd|sd <zero|future|past> | advance
+        call <t> <end> cr|cw|c|cre|cwe | call <t> <end> srd|swd|sd <zero|future|past> | advance
         ret <t> <n> <err> | pend <t> | stream <dir> <hex> | quiet
 -/
 open SSV SSV.Pipe
@@ -110,6 +110,12 @@ def stepC15 (ds : DState) (line : String) : DState × String :=
       | _, _ => (ds, "bad-op")
   | ["call", t, e, "cw"] => match t.toNat?, e.toNat? with
       | some t, some e => answer { ds with where_ := setWhere t e false } (startIn ds t e (.closeWrite none)) "thread-busy"
+      | _, _ => (ds, "bad-op")
+  | ["call", t, e, "cre"] => match t.toNat?, e.toNat? with
+      | some t, some e => answer { ds with where_ := setWhere t (1 - e) false } (startIn ds t (1 - e) (.closeRead (some 1))) "thread-busy"
+      | _, _ => (ds, "bad-op")
+  | ["call", t, e, "cwe"] => match t.toNat?, e.toNat? with
+      | some t, some e => answer { ds with where_ := setWhere t e false } (startIn ds t e (.closeWrite (some 1))) "thread-busy"
       | _, _ => (ds, "bad-op")
   | ["call", t, e, "c"] => match t.toNat?, e.toNat? with
       | some t, some e =>
